@@ -1945,6 +1945,9 @@ def _handle_assignment_ast(
         if not isinstance(value, (ast.Tuple, ast.List)):
             return None
 
+        if len(value.elts) != len(left_names):
+            raise ValueError("tuple assignment needs as many values as targets")
+
         right_data = [eval_or_expr(elt) for elt in value.elts[: len(left_names)]]
         evaluated_values = [data[2] for data in right_data]
         inferred_types = [
